@@ -389,6 +389,19 @@ func c22AstStr(a ast2.Ast, ids *c22ids) string {
 
 type c22viol struct{ key, desc string }
 
+// c22PanicKey: a panic caused by ToAst's missing arm for type T is keyed by that root cause
+func c22PanicKey(def, msg string) string {
+	const u = "unsupported node type *ast."
+	if i := strings.Index(msg, u); i >= 0 {
+		t := msg[i+len(u):]
+		if j := strings.IndexAny(t, " :,"); j >= 0 {
+			t = t[:j]
+		}
+		return "toast-unsupported-" + t
+	}
+	return def
+}
+
 // c22Malformed: go/ast's own documented invariant that Set re-derives (precondition of the property)
 func c22Malformed(n ast.Node) bool {
 	if s, ok := n.(*ast.SliceExpr); ok {
@@ -475,7 +488,7 @@ func c22CheckNode(n ast.Node, tags map[string]bool) *c22viol {
 	// Get(i) valid exactly for i < Size
 	for i := 0; i < size; i++ {
 		if msg := c22Try(func() { in.Get(i) }); msg != "" {
-			return &c22viol{tn + "-get-below-size-fails", fmt.Sprintf("%s.Get(%d) with Size()=%d: %s", tn, i, size, msg)}
+			return &c22viol{c22PanicKey(tn+"-get-below-size-fails", msg), fmt.Sprintf("%s.Get(%d) with Size()=%d: %s", tn, i, size, msg)}
 		}
 	}
 	if msg := c22Try(func() { in.Get(size) }); msg == "" {
@@ -483,7 +496,7 @@ func c22CheckNode(n ast.Node, tags map[string]bool) *c22viol {
 	}
 	var out ast2.Ast
 	if msg := c22Try(func() { out = c22Rebuild(in) }); msg != "" {
-		return &c22viol{tn + "-rebuild-panics", fmt.Sprintf("rebuild of *ast.%s panics: %s", tn, msg)}
+		return &c22viol{c22PanicKey(tn+"-rebuild-panics", msg), fmt.Sprintf("rebuild of *ast.%s panics: %s", tn, msg)}
 	}
 	if msg := c22Try(func() { out.New().Set(size, nil) }); msg == "" {
 		return &c22viol{tn + "-set-accepts-index-size", fmt.Sprintf("%s.Set(%d, nil) succeeds although Size()=%d", tn, size, size)}
@@ -1058,7 +1071,7 @@ func c22ExecTree(kind, arg string) Result {
 		}, 0)
 		var out ast.Node
 		if msg := c22Try(func() { out = ast2.ToNode(c22Clone(ast2.ToAst(root))) }); msg != "" {
-			first = &c22viol{"deep-clone-panics", "deep clone panics: " + msg}
+			first = &c22viol{c22PanicKey("deep-clone-panics", msg), "deep clone panics: " + msg}
 			break
 		}
 		if malformed {
